@@ -57,6 +57,30 @@ def _l1_context(w0: int, w1: int, w2: int, pos: int, g: bool, obs: int, pad: int
     return sym == S.letter(ref, p, ref_base, observed)
 
 
+def _l4_two_contigs(a0: int, a1: int, a2: int, b0: int, b1: int, b2: int, g: bool, first: int) -> bool:
+    """
+    pre: 0 <= a0 <= 4 and 0 <= a1 <= 2 and 0 <= a2 <= 4 and 0 <= b0 <= 4 and 0 <= b1 <= 2 and 0 <= b2 <= 4
+    pre: 0 <= first <= 1
+    post: _
+    """
+    # ONE calling object (as the tagger uses it) asked about the same coordinate on two contigs with different sequence, in either order
+    taps = TAPS()
+    refs = {'chrA': 'AT' + pick(B, a0) + pick(B, a1) + pick(B, a2) + 'AT', 'chrB': 'AT' + pick(B, b0) + pick(B, b1) + pick(B, b2) + 'AT'}
+    fa = FakeFasta(refs)
+    ref_base = 'G' if g else 'C'
+    p = 4 if g else 2
+    order = ['chrA', 'chrB'] if first == 0 else ['chrB', 'chrA']
+    conv = 'A' if g else 'T'
+    for rounds in (0, 1):
+        for c in order:
+            if refs[c][p] != ref_base:
+                continue
+            ctx, sym = taps.position_to_context(c, p, ref_base, observed_base=conv, strand=g, reference=fa)
+            if sym != S.letter(refs[c], p, ref_base, conv):
+                return False
+    return True
+
+
 def _build(ref, start, n, rev, conv_mask, name, paired=None):
     """read over ref[start:start+n); C (or G on the reverse strand) at offset i is shown converted iff bit i of conv_mask"""
     exp = 'G' if rev else 'C'
@@ -162,6 +186,8 @@ LEMMAS = [
          cases={'quick': [dict(id='w%d_%s_%s' % (w, 'rev' if r else 'fwd', 'two' if t else 'one'), pre=['w0 == %d' % w, 'rev == %s' % bool(r), 'two == %s' % bool(t)] + ([] if t else ['mask2 == 0']))
                           for w in range(4) for r in (0, 1) for t in (0,)] +
                          [dict(id='two_w%d_%s' % (w, 'rev' if r else 'fwd'), pre=['w0 == %d' % w, 'rev == %s' % bool(r), 'two == True', 'w3 <= 1', 'mask <= 7', 'mask2 <= 7']) for w in (1, 2) for r in (0, 1)]}),
+    dict(name='L4_shared_caller_two_contigs', fn='_l4_two_contigs', engine='E1', timeout=_T, replay='replay.C14:replay',
+         cases={'quick': [dict(id='%s_a%d' % ('G' if g else 'C', a), pre=['g == %s' % bool(g), ('a2 == %d' % a if g else 'a0 == %d' % a), ('b2 == 2' if g else 'b0 == 1')]) for g in (0, 1) for a in ((2,) if g else (1,))]}),
     dict(name='L3_dove_safe_span', fn='_l3_dove', engine='E1', timeout=_T, replay='replay.C14:replay'),
 ]
 
